@@ -249,6 +249,13 @@ class CallMixin:
             return VBool(isinstance(v, (VReal, VInt)))
         if name == "real":
             return VReal(self.to_real(self.ev(node.args[0], st)))
+        if name == "named_out":  # ghost of the file most recently written by ndarray.tofile(<file name>)
+            fo = st.ghost.get("named_out")
+            if fo is None:
+                raise OutOfSubset("named_out(): no array was written to a named file on this path")
+            return fo
+        if name == "named_out_count":
+            return VInt(st.ghost.get("named_out_count", 0))
         if name and name.startswith("cast_") and len(node.args) == 1:
             # cast_<from>_<to>(x): the C cast the writer applies when the array dtype differs from the file's sample type
             # (the same uninterpreted function as pvc/wrmodel.py::cwrite uses; deterministic, otherwise unspecified)
